@@ -107,6 +107,161 @@ func (g *gen) validateStmt() {
 	}
 }
 
+// WildDecls are extra declarations of the "wild" profile (C07): unsafe, recursive types, mutual recursion, a function
+// without body, a generic type with several instantiations.
+const WildDecls = `import "unsafe"
+
+type Tree struct {
+	Kids []*Tree
+	M    map[string]*Tree
+	Up   *Tree
+	V    string
+}
+
+type Rec func(Rec, string) string
+
+type Stack[T any] struct{ items []T }
+
+func (s *Stack[T]) Push(x T) { s.items = append(s.items, x) }
+func (s *Stack[T]) Pop() T {
+	var zero T
+	if len(s.items) == 0 {
+		return zero
+	}
+	x := s.items[len(s.items)-1]
+	s.items = s.items[:len(s.items)-1]
+	return x
+}
+
+func ext(x string) string
+
+func even(n int, s string) string {
+	if n <= 0 {
+		return s
+	}
+	return odd(n-1, s+"e")
+}
+
+func odd(n int, s string) string {
+	if n <= 0 {
+		return s
+	}
+	return even(n-1, s+"o")
+}
+
+func walk(t *Tree, acc string) string {
+	if t == nil {
+		return acc
+	}
+	for _, k := range t.Kids {
+		acc = walk(k, acc+t.V)
+	}
+	for _, k := range t.M {
+		acc = walk(k, acc)
+	}
+	return walk(t.Up, acc)
+}
+
+func selfapp(r Rec, s string) string {
+	if r == nil {
+		return s
+	}
+	return r(r, s)
+}
+
+func bytesOf(s string) []byte { return unsafe.Slice(unsafe.StringData(s), len(s)) }
+`
+
+func (g *gen) wildStmt() {
+	if !g.p.Wild {
+		return
+	}
+	g.feat("wild")
+	switch g.intn(12, "wildkind") {
+	case 0:
+		g.emit("defer func() {")
+		g.emit("\tif r := recover(); r != nil {")
+		g.emit("\t\tG0 = \"recovered\"")
+		g.emit("\t}")
+		g.emit("}()")
+		g.feat("recover")
+	case 1:
+		cs := g.callees()
+		if len(cs) > 0 {
+			f := cs[g.intn(len(cs), "gocallee")]
+			g.emit("go %s", g.callExpr(f))
+			g.feat("go-call")
+		}
+	case 2:
+		g.emit("go func() {")
+		g.indent++
+		g.closureDepth++
+		g.block(1 + g.intn(2, "gon"))
+		g.closureDepth--
+		g.indent--
+		g.emit("}()")
+		g.feat("go-closure")
+	case 3:
+		if v, ok := g.pickVar(TStr, "unsafev"); ok {
+			g.newVar(TPStr, "(*string)(unsafe.Pointer(&"+v.name+"))")
+			g.feat("unsafe-pointer")
+		}
+	case 4:
+		g.newVar(TStr, "even(3, "+g.expr(TStr, 1)+")")
+		g.feat("mutual-recursion")
+	case 5:
+		t := g.fresh()
+		g.emit("%s := &Tree{V: %s, M: map[string]*Tree{}}; _ = %s", t, g.expr(TStr, 1), t)
+		g.emit("%s.Kids = append(%s.Kids, %s, &Tree{V: %s, Up: %s})", t, t, t, g.expr(TStr, 1), t)
+		g.emit("%s.M[\"k\"] = %s", t, t)
+		g.newVar(TStr, "walk("+t+", \"\")")
+		g.feat("recursive-type")
+	case 6:
+		g.newVar(TStr, "ext("+g.expr(TStr, 1)+")")
+		g.feat("bodyless-func")
+	case 7:
+		s1, s2 := g.fresh(), g.fresh()
+		g.emit("%s := &Stack[string]{}; %s := &Stack[*S]{}", s1, s2)
+		g.emit("%s.Push(%s); %s.Push(%s)", s1, g.expr(TStr, 1), s2, g.expr(TPS, 1))
+		g.newVar(TStr, s1+".Pop()")
+		g.newVar(TPS, "ident("+s2+".Pop())")
+		g.feat("generic-type")
+	case 8:
+		r := g.fresh()
+		g.emit("var %s Rec = func(rr Rec, ss string) string {", r)
+		g.emit("\tif len(ss) > 8 {")
+		g.emit("\t\treturn ss")
+		g.emit("\t}")
+		g.emit("\treturn rr(rr, ss+%s)", g.expr(TStr, 1))
+		g.emit("}")
+		g.newVar(TStr, "selfapp("+r+", \"\")")
+		g.feat("closure-recursion")
+	case 9:
+		g.emit("for {")
+		g.emit("\tdefer sink1(%d, %s)", g.nextLine()+0, g.expr(TStr, 1))
+		g.prog.Sinks[g.nextLine()-1] = "sink1"
+		g.emit("\tif cond(%d) {", g.bit())
+		g.emit("\t\tbreak")
+		g.emit("\t}")
+		g.emit("}")
+		g.feat("defer-in-loop")
+	case 10:
+		g.newVar(TBytes, "bytesOf("+g.expr(TStr, 1)+")")
+		g.feat("unsafe-slice")
+	default:
+		c := g.fresh()
+		g.emit("%s := make(chan *S)", c)
+		g.emit("go func() { %s <- %s }()", c, g.expr(TPS, 1))
+		g.emit("select {")
+		g.emit("case x := <-%s:", c)
+		g.emit("\tsink1(%d, x)", g.nextLine())
+		g.prog.Sinks[g.nextLine()-1] = "sink1"
+		g.emit("case <-make(chan int):")
+		g.emit("}")
+		g.feat("select-recv")
+	}
+}
+
 func (g *gen) genSig(i int) *Fn {
 	f := &Fn{Name: fmt.Sprintf("f%d", i)}
 	np := g.intn(4, "np")
@@ -115,7 +270,18 @@ func (g *gen) genSig(i int) *Fn {
 	}
 	nr := []int{0, 1, 1, 1, 2, 3}[g.intn(6, "nr")]
 	for k := 0; k < nr; k++ {
-		f.Results = append(f.Results, g.randType("rtype"))
+		rt := g.randType("rtype")
+		if g.p.Off["callee-stores-ref"] {
+			// known finding: a reference stored by a callee into a container it returns (or into memory reachable from
+			// a parameter) and written through afterwards by the caller is not tracked; results are kept free of
+			// nested references
+			switch rt {
+			case TS, TPS, TE, TLPS, TMPS, TBox, TFunc, TAny:
+				g.prog.Excluded++
+				rt = []Type{TStr, TSlice, TMap, TPStr}[g.intn(4, "rtype2")]
+			}
+		}
+		f.Results = append(f.Results, rt)
 	}
 	switch g.intn(8, "recv") {
 	case 0:
@@ -211,6 +377,12 @@ func Generate(t *rapid.T, p *Profile) *Program {
 		SinkFunc: map[int]string{}, Direct: map[[2]int]bool{}, Feats: map[string]bool{}}, directSrc: map[string]int{}}
 	g.emit("package main")
 	g.emit("")
+	if p.Wild {
+		for _, l := range strings.Split(strings.TrimRight(WildDecls, "\n"), "\n") {
+			g.lines = append(g.lines, l)
+		}
+		g.emit("")
+	}
 	for _, l := range strings.Split(strings.TrimRight(Decls, "\n"), "\n") {
 		g.lines = append(g.lines, l)
 	}
